@@ -61,6 +61,16 @@ checks = {
          "every mutated image is decoded by litestream's WALReader and by an independent reference; composition law for chunked reads; reference cross-validated against SQLite recovery",
          "SQLite cross-validation is budgeted (sqlite_validation_exhaustive reported); offset reads trust the previous frame's stored checksum, as the code documents",
          "DESIGN.md §3 C09"),
+ "C14": (E1, "model_checking",
+         "explicit-state search over operation histories with a differential oracle: the same application history replayed on a database litestream never touches",
+         "bounded exhaustive exploration; logical dump of user-visible schema/rows and header pragmas equals the litestream-free control run; bookkeeping tables as specified; integrity and WAL mode kept",
+         "application operations are deterministic functions of a counter; control runs cached per application projection",
+         "DESIGN.md §3 C14"),
+ "C15": (E1, "model_checking",
+         "explicit-state search over histories with compaction/retention; at every leaf all T at, +-1ms around and between the recorded replication times are restored and compared with the fold of archived level-0 files",
+         "bounded exhaustive exploration; restore(T) equals the state of a TXID replicated strictly before T, monotone in T, exact when level-0 is complete, fails before the first backup",
+         "replication time = LTX header timestamp read back from archived files; file-creating operations kept >=3ms apart by the driver; file replica (CreatedAt = mtime)",
+         "DESIGN.md §3 C15"),
  "C19": (E5, "exploration",
          "exhaustive enumeration of legacy 0.3.x layouts generated from real histories (segment splits, snapshot placements, single removals, timestamps, mixed formats) against the generating history's ledger",
          "every layout x removal x timestamp is restored with the real code and compared byte-for-byte with the expected state (or an error is required)",
